@@ -81,8 +81,9 @@ impl<T> RawTable<T> {
         if item.in_main {
             self.table.erase(item.bucket);
         } else if let Some(ref mut lo) = self.leftovers {
-            lo.items.reflect_remove(&item.bucket);
+            lo.reflect_remove(&item.bucket);
             lo.table.erase(item.bucket);
+            lo.refresh_if_zst();
         } else {
             unreachable!("invalid bucket state");
         }
@@ -94,8 +95,9 @@ impl<T> RawTable<T> {
         if item.in_main {
             self.table.remove(item.bucket).0
         } else if let Some(ref mut lo) = self.leftovers {
-            lo.items.reflect_remove(&item.bucket);
+            lo.reflect_remove(&item.bucket);
             let (v, _) = lo.table.remove(item.bucket);
+            lo.refresh_if_zst();
 
             if lo.table.len() == 0 {
                 let _ = self.leftovers.take();
@@ -299,13 +301,15 @@ impl<T> RawTable<T> {
         } else if let Some(ref mut lo) = self.leftovers {
             let items = &mut lo.items;
             let b = bucket.bucket.clone();
-            lo.table.replace_bucket_with(b, move |t| {
+            let still_occupied = lo.table.replace_bucket_with(b, move |t| {
                 let v = f(t);
-                if v.is_none() {
+                if v.is_none() && !OldTable::<T>::IS_ZST {
                     items.reflect_remove(&bucket.bucket);
                 }
                 v
-            })
+            });
+            lo.refresh_if_zst();
+            still_occupied
         } else {
             unreachable!("invalid bucket state");
         }
@@ -586,6 +590,25 @@ struct OldTable<T> {
     // We cache an iterator over the old table's buckets so we don't need to do a linear search
     // across buckets we know are empty each time we want to move more items.
     items: raw::RawIter<T>,
+}
+
+impl<T> OldTable<T> {
+    // `RawIter::reflect_remove` locates a bucket by comparing element pointers, which is
+    // meaningless (and panics) for zero-sized `T`. For those we instead rebuild the cached
+    // iterator after the table changed; there is nothing to search for in a table of ZSTs.
+    const IS_ZST: bool = mem::size_of::<T>() == 0;
+
+    unsafe fn reflect_remove(&mut self, b: &raw::Bucket<T>) {
+        if !Self::IS_ZST {
+            self.items.reflect_remove(b);
+        }
+    }
+
+    unsafe fn refresh_if_zst(&mut self) {
+        if Self::IS_ZST {
+            self.items = self.table.iter();
+        }
+    }
 }
 
 /// Iterator which returns a raw pointer to every full bucket in the table.
